@@ -5,6 +5,7 @@ import (
 	"reflect"
 	"sort"
 	"strings"
+	"sync/atomic"
 	"time"
 	"unicode"
 
@@ -103,6 +104,7 @@ func runFormat(s *source, src []byte, timeout time.Duration) fmtResult {
 	case r := <-ch:
 		return r
 	case <-time.After(timeout):
+		atomic.StoreInt32(&hung, 1)
 		return fmtResult{hang: true}
 	}
 }
